@@ -117,6 +117,38 @@ CHECKS = {
              'references among new shared values / into moved parts of old.',
         note='Trusted: apply_diff as reference (its own correctness is C10).',
         design='§3 C13'),
+    'C14': dict(
+        category='exploration',
+        technique='independent reachability walk + subclass predicate as TagModel; frame '
+                  'condition outside the predicted substitutions; lock-step tag-edit model; '
+                  'survival through copy/pickle/cast/JSON/diff',
+        text='Held on generated DAGs incl. tags on positional and unset arguments.',
+        note='Trusted: vf.canon identity walk; issubclass as the matching predicate.',
+        design='§3 C14'),
+    'C15': dict(
+        category='exploration',
+        technique='SelectModel (independent reachability + matching predicate from the docstring); '
+                  'expected post-state realised from the abstract DAG; identity of non-matching nodes',
+        text='Held for every (callable, match_subclasses, buildable_type) selector sampled, for '
+             'iteration, get, set and replace (deepcopy on/off).',
+        note='Trusted: abstract DAG substitution as specification of replace.',
+        design='§3 C15'),
+    'C16': dict(
+        category='exploration',
+        technique='state-based history oracle after every op (append-only, exactly-one entry per '
+                  'change, canonical keys, ordering/uniqueness of sequence ids, caller attribution, '
+                  'suspension) + free-running threads for id uniqueness',
+        text='Held on generated edit sequences and on 2-4 thread stress runs (switch interval 1us).',
+        note='Trusted: identity comparison of stored values before/after each op.',
+        design='§3 C16'),
+    'C17': dict(
+        category='exploration',
+        technique='icontract snapshot/ensure frame contracts (+ exceptional-exit check) around 58 '
+                  'entry points; evaluation counters per entry point; repo test-suite as extra workload',
+        text='Every entry point evaluated its contract on generated configurations (zero '
+             'evaluations for any entry point = inconclusive).',
+        note='Trusted: frame canon (python ids + history lengths); icontract 2.7.3.',
+        design='§3 C17, §6'),
     'C03': dict(
         category='exploration',
         technique='lock-step reference-model monitor (ArgModel) over generated edit histories '
